@@ -166,6 +166,63 @@ def expected_cadence(meta):
     return exp, lag, segs
 
 
+def wall_case(c, rebound, exe, W, stats, rng, idx):
+    """wall-time cadence (auto_walltime): the clock is whatever the machine gives; the heartbeat callback records the
+    clock value of every heartbeat, the Lean model run over that sequence must give the number of snapshots and
+    the persisted `simulationarchive_next`; every snapshot must carry a wall time >= its prescribed one (never early)"""
+    wd = os.path.join(W, "wall%d" % idx)
+    os.makedirs(wd, exist_ok=True)
+    fn = os.path.join(wd, "wall.bin")
+    iv = rng.choice([5e-5, 2e-4, 1e-3])
+    npart = rng.randint(20, 60)
+    nsteps = rng.randint(150, 400)
+    parts = [ac.gen_particle(rng, star=True)] + [ac.gen_particle(rng) for _ in range(npart)]
+
+    def child():
+        import warnings
+        warnings.filterwarnings("ignore")
+        sim = rebound.Simulation()
+        for p in parts:
+            sim.add(**p)
+        sim.integrator = "leapfrog"
+        sim.dt = 1e-3
+        trace = []
+
+        def hb(simp):
+            trace.append(ac.hex64(simp.contents.walltime))
+        sim.heartbeat = hb
+        next0 = ac.hex64(sim.walltime)
+        sim.save_to_file(fn, walltime=iv)
+        sim.integrate(sim.dt * (nsteps - 0.5), exact_finish_time=0)
+        json.dump(dict(trace=trace, next0=next0, next_after=ac.hex64(sim.simulationarchive_next)), open(os.path.join(wd, "res.json"), "w"))
+    rc = ac.fork_run(child, timeout=60)
+    if rc != 0 or not os.path.exists(os.path.join(wd, "res.json")):
+        stats["wall_hazards"] = stats.get("wall_hazards", 0) + 1
+        return
+    res = json.load(open(os.path.join(wd, "res.json")))
+    blobs = ac.parse_archive(open(fn, "rb").read()) if os.path.exists(fn) else []
+    o = run_driver(exe, ["cadwall %s %s %s" % (d2h(iv), res["next0"], " ".join(res["trace"]))])[0].split()
+    stats["wall_runs"] = stats.get("wall_runs", 0) + 1
+    stats["wall_snapshots"] = stats.get("wall_snapshots", 0) + len(blobs)
+    c.count(("walltime", iv, len(blobs)), n=len(res["trace"]))
+    rep = dict(interval=iv, particles=npart, steps=nsteps, snapshots=len(blobs), model=o[0].count("1"), next_real=res["next_after"], next_model=o[1])
+    if o[0].count("1") != len(blobs) or o[1] != res["next_after"]:
+        c.corr_break("wall-time heartbeat model: %d snapshots next=%s, real code: %d snapshots next=%s" % (o[0].count("1"), o[1], len(blobs), res["next_after"]), rep)
+    else:
+        stats["cadence_segments_model_equal"] += 1
+    # never early: snapshot j carries walltime >= next0 + j*interval
+    recs0 = blobs[0]["recs"] if blobs else []
+    nxt = h2d(res["next0"])
+    for j, bl in enumerate(blobs):
+        recs = ac.overlay(recs0, bl["recs"]) if j else bl["recs"]
+        w = struct.unpack("<d", ac.rec_value(recs, ac.WALL))[0]
+        if not w >= nxt:
+            c.violation("cadence:walltime-early", "wall-time snapshot %d taken at walltime %r before its prescribed time %r" % (j, w, nxt), rep)
+            break
+        nxt += iv
+    shutil.rmtree(wd, ignore_errors=True)
+
+
 def big_archive(c, rebound, exe, V, W, n, stats):
     """more snapshots than the reader's initial index capacity (1024, grown in chunks of 1024): a tiny simulation,
     one automatic snapshot per step; count, offsets, times and the last snapshot must be right"""
@@ -270,7 +327,9 @@ def _run(c, rebound, exe, W):
     t_start = time.time()
     for nbig in ((1030, 2100, 3100) if c.thorough else (1030, 2100)):
         big_archive(c, rebound, exe, V, W, nbig, stats)
-    c.log("big archives done")
+    for iw in range(6 if c.thorough else 2):
+        wall_case(c, rebound, exe, W, stats, c.rng.fork(), iw)
+    c.log("big archives and wall-time cadence done")
     batch = []
     hi = 0
 
@@ -354,6 +413,22 @@ def _run(c, rebound, exe, W):
             shutil.rmtree(h["wd"], ignore_errors=True)
 
     def oracle(h):
+        pending = []
+
+        def V(key, what, rep):
+            pending.append((key, what, rep))
+        oracle_body(h, V)
+        if pending and any(c.is_known(k) is None for k, _, _ in pending):
+            # before blaming the archive code: did an integrator damage the heap while this history ran?
+            loc = asan_classify(h["hist"], W)
+            if loc is not None and loc[0] not in ARCHIVE_SOURCES and loc[0] not in ("?", "asan-run-failed"):
+                key = "%s:%d" % (loc[0], loc[1])
+                outside[key] = outside.get(key, 0) + 1
+                return
+        for k, w, r in pending:
+            c.violation(k, w, r)
+
+    def oracle_body(h, V):
         wd, meta, n, hist = h["wd"], h["meta"], h["n"], h["hist"]
         if n == 0:
             return
@@ -403,22 +478,22 @@ def _run(c, rebound, exe, W):
             limit = 0       # reported when it happened
         elif len(blobs) != n or nb_real != n:
             if firstvan is not None and min(len(blobs), nb_real) >= firstvan and not v[0]:
-                c.violation(K_F1, "archive exposes %d of %d snapshots after a persisted array vanished" % (nb_real, n), rep)
+                V(K_F1, "archive exposes %d of %d snapshots after a persisted array vanished" % (nb_real, n), rep)
             else:
-                c.violation("count:%s" % key[0], "archive exposes %d (re-parser: %d) of %d snapshots written (%s)" % (nb_real, len(blobs), n, back.get("error")), rep)
+                V("count:%s" % key[0], "archive exposes %d (re-parser: %d) of %d snapshots written (%s)" % (nb_real, len(blobs), n, back.get("error")), rep)
             limit = min(len(blobs), nb_real)
         # (b) offsets and times
         for k in range(limit):
             tk = ac.rec_value(S[k], ac.T_ID)
             if back["offset"][k] != blobs[k]["off"]:
-                c.violation("offset:%s" % key[0], "index offset of snapshot %d is %d, blob starts at %d" % (k, back["offset"][k], blobs[k]["off"]), rep)
+                V("offset:%s" % key[0], "index offset of snapshot %d is %d, blob starts at %d" % (k, back["offset"][k], blobs[k]["off"]), rep)
             if back["t"][k] != tk[::-1].hex():
                 if firstvan is not None and k >= firstvan and not v[0]:
-                    c.violation(K_F1, "index time of snapshot %d (after a persisted array vanished) is wrong" % k, rep)
+                    V(K_F1, "index time of snapshot %d (after a persisted array vanished) is wrong" % k, rep)
                 elif k > 0 and tk == t0 and back["t"][k] == "0" * 16 and not v[1]:
-                    c.violation(K_F11, "index time of snapshot %d taken at t0=%r is reported as 0" % (k, struct.unpack("<d", tk)[0]), rep)
+                    V(K_F11, "index time of snapshot %d taken at t0=%r is reported as 0" % (k, struct.unpack("<d", tk)[0]), rep)
                 else:
-                    c.violation("time:%s" % key[0], "index time of snapshot %d is %s, live time was %s" % (k, back["t"][k], tk[::-1].hex()), rep)
+                    V("time:%s" % key[0], "index time of snapshot %d is %s, live time was %s" % (k, back["t"][k], tk[::-1].hex()), rep)
         # (c) snapshot k equals the live state
         for k in range(limit):
             live = ac.canon(S[k])
@@ -436,7 +511,7 @@ def _run(c, rebound, exe, W):
                     pass
             stats["fieldwise_checked"] += 1
             if (dd or dl) and firstvan is not None and k >= firstvan and not v[0]:
-                c.violation(K_F1, "snapshot %d, written after a persisted array vanished, differs from the live state in field ids %s" % (k, dd[:8]), rep)
+                V(K_F1, "snapshot %d, written after a persisted array vanished, differs from the live state in field ids %s" % (k, dd[:8]), rep)
             elif dd or dl:
                 ids = sorted(set(dd) | set(x for x in dl if isinstance(x, int)))
                 szero = False
@@ -447,16 +522,16 @@ def _run(c, rebound, exe, W):
                     except Exception:
                         szero = False
                 if szero:
-                    c.violation(K_F18, "snapshot %d restores +0.0 where the live particle coordinate was -0.0 (reb_particle_diff compares with !=)" % k, rep)
+                    V(K_F18, "snapshot %d restores +0.0 where the live particle coordinate was -0.0 (reb_particle_diff compares with !=)" % k, rep)
                 else:
-                    c.violation("snapshot-differs:%s" % key[0], "snapshot %d differs from the live state in field ids %s (file) / %s (loader)" % (k, dd[:8], dl[:8]), rep)
+                    V("snapshot-differs:%s" % key[0], "snapshot %d differs from the live state in field ids %s (file) / %s (loader)" % (k, dd[:8], dl[:8]), rep)
             e = back["eq"][k] if k < len(back.get("eq", [])) else None
             if meta["appends"][k]["selfeq"] and e is not None:
                 stats["eq_checked"] += 1
                 if not e and firstvan is not None and k >= firstvan and not v[0]:
-                    c.violation(K_F1, "loaded snapshot %d (after a persisted array vanished) != the kept copy" % k, rep)
+                    V(K_F1, "loaded snapshot %d (after a persisted array vanished) != the kept copy" % k, rep)
                 elif not e:
-                    c.violation("eq:%s" % key[0], "loaded snapshot %d != the copy of the live state kept at save time" % k, rep)
+                    V("eq:%s" % key[0], "loaded snapshot %d != the copy of the live state kept at save time" % k, rep)
         # (d) automatic cadence
         if hist["auto"]:
             stats["auto_histories"] += 1
@@ -468,7 +543,7 @@ def _run(c, rebound, exe, W):
             if lag:
                 stats["lagging"] += 1
             elif got != exp:
-                c.violation("cadence:%s" % hist["auto"], "automatic snapshots at (steps,t) %s, prescribed cadence gives %s (directions %s)" % (got[:8], exp[:8], dirs), rep)
+                V("cadence:%s" % hist["auto"], "automatic snapshots at (steps,t) %s, prescribed cadence gives %s (directions %s)" % (got[:8], exp[:8], dirs), rep)
             # tie: the Lean heartbeat model (same definitions as in the cadence theorems, on IEEE doubles) run over the
             # recorded step boundaries must give the number of snapshots of every integrate() call and the persisted
             # cadence state after it (lagging runs included)
@@ -515,7 +590,17 @@ def _run(c, rebound, exe, W):
                 c.violation(K_F19, "opening the archive the writer produced kills the process (rc %s): a garbled blob (F1) makes the index "
                             "builder fread a 't' field with the size found in the file into an 8-byte slot" % rc, rep)
             else:
+                # heap damage done by an integrator earlier in the same process shows up here as well: locate the
+                # first memory error on an AddressSanitizer build before blaming the reader
+                loc = asan_classify(hist, W)
+                if loc is not None and loc[0] not in ARCHIVE_SOURCES and loc[0] not in ("?", "asan-run-failed"):
+                    key = "%s:%d" % (loc[0], loc[1])
+                    outside[key] = outside.get(key, 0) + 1
+                    shutil.rmtree(wd, ignore_errors=True)
+                    hi += 1
+                    continue
                 stats["child_crash"] += 1
+                rep["asan"] = loc
                 c.violation("crash:readback", "real reader died (rc %s) on an archive written by the real code; model says %s" % (rc, mo[:80]), rep)
             meta = json.load(open(mp))
             meta["back"] = dict(error="reader died rc %s" % rc, nblobs=0, t=[], offset=[], eq=[])
